@@ -27,6 +27,8 @@ def run(tier, seed, t0):
     R.run_inv(Inv("kernel_par", T(tier, 12, 400), "plain", threads=16, shards=1, timeout=T(tier, 600, 7200), tag="kernel_par/plain/t16"), seed, wd, m)
     # the kernel called again on the same objects while they move; exact translations by 2^30 and 2^40
     R.run_inv(Inv("kernel_seq", T(tier, 20000, 2000000), "plain", timeout=T(tier, 600, 7200), first=3000000, tag="kernel_seq/plain"), seed, wd, m)
+    # lattice-aligned geometry in the 48 axis-aligned orientations (exact zeros, normals along -x/-y/-z, points exactly on region boundaries)
+    R.run_inv(Inv("kernel_lattice", T(tier, 200000, 20000000), "plain", timeout=T(tier, 600, 7200), first=4000000, tag="kernel_lattice/plain"), seed, wd, m)
     tenv = {"TSAN_OPTIONS": "halt_on_error=0:exitcode=0:log_path=%s:history_size=4:external_symbolizer_path=%s" % (os.path.join(wd, "tsan"), R.SYMBOLIZER)}
     R.run_inv(Inv("kernel_par", T(tier, 2, 40), "tsan", threads=8, shards=1, timeout=T(tier, 900, 7200), tag="kernel_par/tsan/t8", args=["--batch=3000", "--rounds=2"], env=tenv, first=1000), seed, wd, m)
     reps, total, norepo = tsan_reports(wd, R.builder.repo_dir())
@@ -39,6 +41,8 @@ def run(tier, seed, t0):
     floors["interior_cases_with_h_over_L_below_1e-5"] = (m.bins.get("interior_h_over_L_below_1e-5", 0), 0.002 * m.evaluations)
     floors["calls_on_moving_persistent_objects"] = (m.bins.get("sequence_calls", 0), T(tier, 5e5, 5e7))
     floors["exact_translations"] = (m.bins.get("exact_translations", 0), T(tier, 3e4, 3e6))
+    for r in regions:
+        floors["lattice_cases_in_region_" + r] = (m.bins.get("lattice_region:" + r, 0), T(tier, 2000, 200000))
     floors["concurrent_calls_compared"] = (m.bins.get("concurrent_calls_compared", 0), T(tier, 1e6, 4e7))
     return R.finish("C05", tier, seed, m,
                     "query point constructed per Voronoi region (7 regions incl. region boundaries, both sides of the plane) x distance "
